@@ -22,7 +22,7 @@ import (
 )
 
 type seqCase struct {
-	Scenario string   `json:"scenario"` // "sequence:shared-file" | "sequence:shared-slice"
+	Scenario string   `json:"scenario"` // "sequence:shared-file" | "sequence:shared-slice" | "sequence:nested" | "sequence:unusual-messages"
 	Calls    []string `json:"calls"`
 	Variant  string   `json:"variant,omitempty"`
 }
@@ -155,6 +155,77 @@ func runSharedSlice(variant string, calls []string) (string, string) {
 	return "", ""
 }
 
+// runNested: a composite (outer) one of whose members is another composite (inner) — the library builds such nests itself
+// (subprocess.Output: NewCombinedLoggers(caller's loggers, string logger)). calls over {inner.Append, outer.Append, outer.Log,
+// inner.LogError}: a message through outer reaches r0, every member inner has AT THAT MOMENT, and what was appended to outer;
+// a message through inner reaches inner's members only. variant = "<constructor of outer>/<constructor of inner>".
+func runNested(variant string, calls []string) (string, string) {
+	r0, r1 := &plainRec{name: "r0"}, &plainRec{name: "r1"}
+	mk := func(kind string, members ...logs.Loggers) (logs.IMultipleLoggers, error) {
+		if kind == "NewCombinedLoggers" {
+			return logs.NewCombinedLoggers(members...)
+		}
+		return logs.NewMultipleLoggers("t", members...)
+	}
+	kinds := strings.SplitN(variant, "/", 2)
+	inner, err := mk(kinds[1], r1)
+	if err != nil {
+		return "engine", err.Error()
+	}
+	outer, err := mk(kinds[0], r0, inner)
+	if err != nil {
+		return "engine", err.Error()
+	}
+	all := []*plainRec{r0, r1}
+	inInner, inOuter := []*plainRec{r1}, []*plainRec{r0}
+	want := map[*plainRec][]string{}
+	for i, c := range calls {
+		switch c {
+		case "inner.Append":
+			r := &plainRec{name: fmt.Sprintf("late-member-of-inner-%d", i)}
+			_ = inner.Append(r)
+			inInner, all = append(inInner, r), append(all, r)
+		case "outer.Append":
+			r := &plainRec{name: fmt.Sprintf("late-member-of-outer-%d", i)}
+			_ = outer.Append(r)
+			inOuter, all = append(inOuter, r), append(all, r)
+		case "outer.Log":
+			m := fmt.Sprintf("via-outer-%d", i)
+			outer.Log(m)
+			for _, r := range append(append([]*plainRec(nil), inOuter...), inInner...) {
+				want[r] = append(want[r], m)
+			}
+		case "inner.LogError":
+			m := fmt.Sprintf("via-inner-%d", i)
+			inner.LogError(m)
+			for _, r := range inInner {
+				want[r] = append(want[r], m)
+			}
+		}
+	}
+	for _, r := range all {
+		got := map[string]int{}
+		for _, m := range r.msgs {
+			got[strings.TrimSpace(m)]++
+		}
+		exp := map[string]int{}
+		for _, m := range want[r] {
+			exp[m]++
+		}
+		for m, n := range exp {
+			if got[m] < n {
+				return "member-missed-message:logger=composite-inside-a-composite", fmt.Sprintf("member %s received %q %d time(s), expected %d (calls %v)", r.name, m, got[m], n, calls)
+			}
+		}
+		for m, n := range got {
+			if n > exp[m] {
+				return "member-got-foreign-or-duplicate-message:logger=composite-inside-a-composite", fmt.Sprintf("member %s received %q %d time(s), expected %d (calls %v)", r.name, m, n, exp[m], calls)
+			}
+		}
+	}
+	return "", ""
+}
+
 // countingSink counts the writes it receives (one per record for the JSON logger).
 type countingSink struct{ lines []string }
 
@@ -221,6 +292,8 @@ func runSeqCase(dir string, c seqCase) (string, string) {
 		return runSharedFile(dir, c.Calls)
 	case "sequence:unusual-messages":
 		return runUnusualMessages(c.Calls)
+	case "sequence:nested":
+		return runNested(c.Variant, c.Calls)
 	}
 	return runSharedSlice(c.Variant, c.Calls)
 }
@@ -279,6 +352,24 @@ func sequenceFamilies(rep *ev.Reporter) map[string]int {
 				counts["shared-slice"]++
 			}
 		}
+	}
+	// a composite inside a composite: every sequence of 1..4 calls, the four constructor pairs
+	for _, variant := range []string{"NewCombinedLoggers/NewCombinedLoggers", "NewCombinedLoggers/NewMultipleLoggers", "NewMultipleLoggers/NewCombinedLoggers", "NewMultipleLoggers/NewMultipleLoggers"} {
+		nestedAlphabet := []string{"inner.Append", "outer.Append", "outer.Log", "inner.LogError"}
+		var gen func(prefix []string)
+		gen = func(prefix []string) {
+			if len(prefix) > 0 {
+				report(seqCase{Scenario: "sequence:nested", Variant: variant, Calls: append([]string(nil), prefix...)})
+				counts["nested"]++
+			}
+			if len(prefix) == 4 {
+				return
+			}
+			for _, a := range nestedAlphabet {
+				gen(append(prefix, a))
+			}
+		}
+		gen(nil)
 	}
 	// every message of the list alone, and every ordered pair
 	for i := range unusualMessages {
